@@ -118,6 +118,13 @@ def gen_session(r, tier, force=None):
         mid.append([(r.choice(['down', 'up', 'put']), None)] if r.random() < 0.5 else [('put', 'e')])
         mid = [[('put', 'o')] if st[0] == ('put', None) else st for st in mid]
         steps = steps[:r.randint(0, 3)] + mid + steps[:r.randint(0, 2)]
+    if force == 'hdr' or (force is None and r.random() < 0.05):
+        # --header-lines=N reserves N rows whatever the input holds; with --header-first they sit next to the edge
+        opts['hlines'] = r.choice([1, 2, 3])
+        opts['hfirst'] = r.choice([1, 1, 0])
+        k = r.choice([0, 1, opts['hlines'] - 1, opts['hlines'], opts['hlines'] + 2])
+        lines = (lines + ['alpha', 'beta', 'gamma', 'delta', 'eps'])[:max(0, k)]
+        steps = [st for st in steps if st[0][0] not in ('toggle-hscroll',)]
     if force == 'prompt' or (force is None and r.random() < 0.08):
         # actions that repaint the prompt row only (cursor motion in the query, change-prompt): whatever else the
         # info style puts on that row must still be there afterwards
@@ -248,7 +255,7 @@ def drv_screens(tier, seed, ctx):
     from vcheck import evaluate
     n = 48 if tier == 'quick' else 700
     r = random.Random(seed * 15485863 + 3)
-    scs = [gen_session(r, tier, force='input' if i < 6 else 'fit' if i < 12 else 'prompt' if i < 18 else None) for i in range(n)]
+    scs = [gen_session(r, tier, force='input' if i < 6 else 'fit' if i < 12 else 'prompt' if i < 18 else 'hdr' if i < 23 else None) for i in range(n)]
     notes = []
 
     def work(sc):
